@@ -1,7 +1,7 @@
 (* C14 - blade history policy of addition: the two fast paths.  Pinned theorems only. *)
 From Coq Require Import ZArith List Bool Reals Lra.
 From Flocq Require Import Core BinarySingleNaN.
-Require Import GV.FloatBase GV.FloatLemmas GV.AngleM GV.AngleProofs GV.GeonumM GV.GeonumProofs GV.TraitsM GV.NewProofs GV.CtorProofs.
+Require Import GV.FloatBase GV.FloatLemmas GV.AngleM GV.AngleProofs GV.GeonumM GV.GeonumProofs GV.TraitsM GV.NewProofs GV.CtorProofs GV.ClosureProofs GV.SumUpper.
 Open Scope R_scope.
 
 (* identical angles: the sum keeps that angle *)
@@ -37,3 +37,49 @@ Theorem C14_general_history : forall (L : libm) a b, aeqb (ang a) (ang b) = fals
   canonp (rem (ang (gadd_vv L a b))) /\ (blade (ang a) + blade (ang b) <= blade (ang (gadd_vv L a b)))%Z.
 Proof. exact gadd_general_history. Qed.
 Print Assumptions C14_general_history.
+
+(* the UPPER bound: on the general path the sum carries at most one full turn more than the operands' blade
+   counts, and exactly one full turn only with a remainder below 2^-8 (the rounding of the re-encoding at
+   totals up to 2^42; 0 in exact arithmetic) - whenever the re-encoded total is finite, at most 2^42 in
+   magnitude and at most 4 *)
+Theorem C14_general_upper : forall (L : libm) a b, aeqb (ang a) (ang b) = false ->
+  aeqb (add_vv (ang a) (new one one)) (ang b) || aeqb (add_vv (ang b) (new one one)) (ang a) = false ->
+  (0 <= blade (ang a) + blade (ang b) < 2 ^ 53)%Z ->
+  fin (total_angle (sum_adjusted L a b) PI) -> Rabs (R_ (total_angle (sum_adjusted L a b) PI)) <= bpow radix2 42 ->
+  R_ (total_angle (sum_adjusted L a b) PI) <= 4 ->
+  (blade (ang a) + blade (ang b) <= blade (ang (gadd_vv L a b)) <= blade (ang a) + blade (ang b) + 4)%Z /\
+  (blade (ang (gadd_vv L a b)) = (blade (ang a) + blade (ang b) + 4)%Z -> R_ (rem (ang (gadd_vv L a b))) <= / 256).
+Proof. exact gadd_general_upper. Qed.
+Print Assumptions C14_general_upper.
+
+(* those three premises follow from ONE explicit premise on libm: atan2 returned a finite value in [-PI, PI]
+   (PI the double), for every blade sum below 2^40 *)
+Theorem C14_general_bounds : forall (L : libm) a b, aeqb (ang a) (ang b) = false ->
+  aeqb (add_vv (ang a) (new one one)) (ang b) || aeqb (add_vv (ang b) (new one one)) (ang a) = false ->
+  (0 <= blade (ang a) + blade (ang b) < 2 ^ 40)%Z ->
+  let at_ := atan2F L (fadd (fmul (mag a) (sinF L (grade_angle (ang a)))) (fmul (mag b) (sinF L (grade_angle (ang b)))))
+                      (fadd (fmul (mag a) (cosF L (grade_angle (ang a)))) (fmul (mag b) (cosF L (grade_angle (ang b))))) in
+  fin at_ -> Rabs (R_ at_) <= R_ PI ->
+  canonp (rem (ang (gadd_vv L a b))) /\
+  (blade (ang a) + blade (ang b) <= blade (ang (gadd_vv L a b)) <= blade (ang a) + blade (ang b) + 4)%Z /\
+  (blade (ang (gadd_vv L a b)) = (blade (ang a) + blade (ang b) + 4)%Z -> R_ (rem (ang (gadd_vv L a b))) <= / 256).
+Proof. exact gadd_general_upper_atan2. Qed.
+Print Assumptions C14_general_bounds.
+
+(* Angle::new on the general path never exceeds one full turn when the total is at most 4 *)
+Theorem C14_new_blade_upper : forall p d, fast_path p d = false ->
+  fin (total_angle p d) -> Rabs (R_ (total_angle p d)) <= bpow radix2 42 -> R_ (total_angle p d) <= 4 ->
+  (blade (new p d) <= 4)%Z /\ (blade (new p d) = 4%Z -> R_ (rem (new p d)) <= / 256).
+Proof. exact new_blade_upper. Qed.
+Print Assumptions C14_new_blade_upper.
+
+(* the premises are satisfiable on the general path *)
+Theorem C14_upper_inhabited :
+  let a := {| mag := one; ang := {| rem := zero; blade := 0 |} |} in
+  let b := {| mag := one; ang := {| rem := zero; blade := 1 |} |} in
+  aeqb (ang a) (ang b) = false /\
+  aeqb (add_vv (ang a) (new one one)) (ang b) || aeqb (add_vv (ang b) (new one one)) (ang a) = false /\
+  (0 <= blade (ang a) + blade (ang b) < 2 ^ 40)%Z /\
+  fin (atan2F trivial_libm zero zero) /\ Rabs (R_ (atan2F trivial_libm zero zero)) <= R_ PI.
+Proof. exact gadd_upper_inhabited. Qed.
+Print Assumptions C14_upper_inhabited.
